@@ -301,7 +301,7 @@ def _worker(job):
             for k, d in check_case(case):
                 s.fail(k, case, d)
 
-        H.hyp_run(strat, body, n, H.derive_seed(seed, name, dense))
+        H.hyp_run(strat, body, n, H.derive_seed(seed, name, dense), stats=s)
         s.label("classes covered")
     return s
 
@@ -321,7 +321,7 @@ def _stmt_worker(job):
         for k, d in check_case(case):
             s.fail(k, case, d)
 
-    H.hyp_run(strat, body, n, seed)
+    H.hyp_run(strat, body, n, seed, stats=s)
     return s
 
 
